@@ -78,8 +78,9 @@ def theorems_of(prop_id):
     return re.findall(r'^\s*theorem\s+([A-Za-z0-9_\.\']+)', src, re.M)
 
 
-def audit(prop_id):
-    """#print axioms for every theorem of Props/<ID>.lean. returns (ok, {thm: [axioms]}, log)."""
+def audit(prop_id, tie_names=()):
+    """#print axioms for every theorem of Props/<ID>.lean (and the named theorems of Gen/Tie.lean, reported as `Gen.Tie.<name>`).
+    returns (ok, {thm: [axioms]}, log)."""
     names = theorems_of(prop_id)
     if not names:
         return False, {}, 'no theorems found for %s' % prop_id
@@ -87,8 +88,12 @@ def audit(prop_id):
     path = os.path.join(WORK, 'Audit_%s_%d.lean' % (prop_id, os.getpid()))
     with open(path, 'w') as f:
         f.write('import FxpVerif.Props.%s\n' % prop_id)
+        if tie_names:
+            f.write('import FxpVerif.Gen.Tie\n')
         for n in names:
             f.write('#print axioms Fxp.%s.%s\n' % (prop_id, n))
+        for n in tie_names:
+            f.write('#print axioms Fxp.Gen.Tie.%s\n' % n)
     try:
         p = subprocess.run(['lake', 'env', 'lean', path], cwd=LEAN_DIR, stdout=subprocess.PIPE, stderr=subprocess.STDOUT, text=True, timeout=1200)
     finally:
@@ -102,7 +107,12 @@ def audit(prop_id):
         res[m.group(1)] = [a.strip() for a in m.group(2).replace('\n', ' ').split(',') if a.strip()]
     for m in re.finditer(r"'Fxp\.%s\.([^']+)' does not depend on any axioms" % prop_id, out):
         res[m.group(1)] = []
-    ok = p.returncode == 0 and set(res) == set(names) and all(set(v) <= ALLOWED_AXIOMS for v in res.values())
+    for m in re.finditer(r"'Fxp\.(Gen\.Tie\.[^']+)' depends on axioms: \[([^\]]*)\]", out):
+        res[m.group(1)] = [a.strip() for a in m.group(2).replace('\n', ' ').split(',') if a.strip()]
+    for m in re.finditer(r"'Fxp\.(Gen\.Tie\.[^']+)' does not depend on any axioms", out):
+        res[m.group(1)] = []
+    want = set(names) | set('Gen.Tie.' + n for n in tie_names)
+    ok = p.returncode == 0 and set(res) == want and all(set(v) <= ALLOWED_AXIOMS for v in res.values())
     return ok, res, out
 
 
